@@ -33,7 +33,7 @@ func TestCancelDuringDispatch(t *testing.T) {
 	})
 }
 
-var collRace = vkit.NewCollector("C06", "TestWaitRace", "free-running stress on real goroutines (race detector on): 200-600 rounds per case in which a quick Async handler signals that it is about to return and spins for a varying time, the publisher publishes a second event as soon as it sees the signal and calls Wait; oracle = every invocation finished when Wait returns. Non-trivial = >=2 rounds.")
+var collRace = vkit.NewCollector("C06", "TestWaitRace", "free-running stress on real goroutines (race detector on): 200-600 rounds per case in which a quick Async handler signals that it is about to return and spins for a varying time, the publisher publishes a second event as soon as it sees the signal and calls Wait (mode publish), or calls Wait after a varying spin of its own with no further publish (mode last), or publishes to a trivial handler and calls Wait after a varying distance with no handshake (mode free); oracle = every invocation finished when Wait returns, and Wait returns: a Wait still blocked 40 s after every invocation has finished, with nothing moving, is a hang. Non-trivial = >=2 rounds.")
 
 func TestWaitRace(t *testing.T) { vkit.Check(t, collRace, GenRace, RunRace) }
 
